@@ -392,6 +392,10 @@ def check_strlex(R, drv, tier):
     core.log(f"[K-strlex] {nshape} shapes, {nexits} exits, {nviol} violations in {time.time()-t0:.1f}s")
 
 
+def strlex_is_hex(c):
+    return is_hex(c)
+
+
 def check_strlex_total(R, drv, tier):
     """K-strlex-total (C12): the string reader returns (Ok or Err) on EVERY input - no panic exit and no loop beyond the
     unwinding bound - for all inputs of M characters that start with a quote (every other character an arbitrary Unicode scalar;
@@ -407,13 +411,23 @@ def check_strlex_total(R, drv, tier):
         pats = [(re.compile(rx), fn) for rx, fn in stubs()]
         nexits = npanic = 0
         last = None
-        for q in (DQ, SQ):
-            for m in range(1, M + 1):
-                ch = [bv(q)] + [z3.BitVec(f"tot{m}_c{i}", 32) for i in range(1, m)]
-                pre = [scalar(c) for c in ch[1:]]
-                I = Interp(funcs, unwind=3 * m + 8, timeout_s=600 if tier == "quick" else 2400, max_paths=200000)
+        seen_hang = set()
+        # inputs: a quote followed by m-1 arbitrary characters; and, to reach deep into the escape reader with few paths, inputs whose
+        # first characters after the quote are pinned to the start of an escape (`\\u{`, `\\x`, `\\`) followed by arbitrary characters
+        plans = [(q, "", m) for q in (DQ, SQ) for m in range(0, M)]
+        plans += [(DQ, "\\u{", k) for k in range(0, (9 if tier == "quick" else 11))] + [(DQ, "\\x", k) for k in range(0, 5)] + [(SQ, "\\", k) for k in range(0, 5)]
+        for q, pinned, m in plans:
+            if True:
+                ch = [bv(q)] + [bv(c) for c in pinned] + [z3.BitVec(f"tot{len(pinned)}_{m}_c{i}", 32) for i in range(m)]
+                pre = [scalar(c) for c in ch[1 + len(pinned):]]
+                if pinned:
+                    # after a pinned escape start only the characters that the escape reader distinguishes matter
+                    pre += [z3.Or(strlex_is_hex(c), c == 125, c == q, c == 103) for c in ch[1 + len(pinned):]]
+                m_total = len(ch)
+                I = Interp(funcs, unwind=3 * m_total + 8, timeout_s=600 if tier == "quick" else 2400, max_paths=200000)
                 I.stub_patterns = pats
                 I.lazy = False
+                I.unwind_exits = True
                 st = State()
                 st.pc = list(pre)
                 st.heap.append(SAgg("closure", "", {0: SInt(bv(q), 32, False), 1: SBool(z3.BoolVal(True))}))
@@ -433,7 +447,17 @@ def check_strlex_total(R, drv, tier):
                         continue
                     npanic += 1
                     src = "".join(chr(model.eval(c, model_completion=True).as_long()) for c in ch)
-                    r = drv.req(op="lex", prql=src)
+                    r = drv.req(_timeout=10, op="lex", prql=src)
+                    if e.kind == "unwind":
+                        if r.get("hang"):
+                            if ("hang", pinned) not in seen_hang:
+                                seen_hang.add(("hang", pinned))
+                                R.violation({"engine": "mirsym", "kernel": "K-strlex-total", "kind": "hang"},
+                                            f"K-strlex-total: lexing the {len(src)}-character source text {src!r} does not terminate (no answer within 10 s; the reader loops: {e.msg})",
+                                            {"prql": src, "detail": e.msg, "expect_lex_terminates": True})
+                        else:
+                            R.engine_error(f"K-strlex-total: unwinding bound too small ({e.msg}) - the real lexer terminates on {src!r}")
+                        continue
                     if r.get("crash") or r.get("panic"):
                         R.violation({"engine": "mirsym", "kernel": "K-strlex-total", "kind": "panic"},
                                     f"K-strlex-total: lexing the source text {src!r} panics ({e.msg})", {"prql": src, "detail": str(r)[:300]})
